@@ -385,6 +385,12 @@ func runCli(c *mon.Case) {
 	} else {
 		c.Count("cli:flag:output-stdout")
 	}
+	if r.Chance(0.5) {
+		// the global --threads option: the replicates are still written one after the other
+		t := r.PickStr([]string{"2", "4", "8", "16"})
+		flags = append(flags, r.PickStr([]string{"-t", "--threads"}), t)
+		c.Count("cli:flag:threads>1")
+	}
 	args := []string{"build", "weightboot"}
 	if r.Bool() {
 		args = append(append(args, flags...), inArgs...)
